@@ -206,7 +206,12 @@ func (c *Ctx) Fatal(format string, a ...interface{}) {
 
 type RNG struct{ s uint64 }
 
-func NewRNG(seed uint64) *RNG { return &RNG{s: seed*0x9E3779B97F4A7C15 + 0x1234567} }
+func NewRNG(seed uint64) *RNG {
+	// mix the seed through the output function so that consecutive seeds give unrelated streams
+	r := &RNG{s: seed ^ 0x5851F42D4C957F2D}
+	r.s = r.Uint64() ^ (seed * 0xD6E8FEB86659FD93)
+	return r
+}
 func (r *RNG) Uint64() uint64 {
 	r.s += 0x9E3779B97F4A7C15
 	z := r.s
